@@ -115,8 +115,34 @@ def icpt_scripts_from_tlc(ctx, rng, size, walks, depth):
                 steps.append({"a": a, "j": e["j"]})
             else:
                 steps.append({"a": a, "s": e["s"]})
-        scripts.append({"level": "icpt", "size": size, "steps": park_writes(rng, steps)})
+        sc = {"level": "icpt", "size": size, "steps": faults(rng, park_writes(rng, steps))}
+        if rng.random() < 0.35:      # every NACK packed, the first retransmission of every job still running at the end refused
+            sc["drainfail"] = True
+            sc["steps"] = [dict(st, fail=True) if st["a"] == "nack" else st for st in sc["steps"]]
+        scripts.append(sc)
     return scripts
+
+
+def faults(rng, steps):
+    """The stream's writer refuses some retransmissions (the rest of the NACK must be answered all the same), and after an
+    Unbind a Write arrives through the writer the stream had (it lost the race with the Unbind): it passes through and is not
+    kept - a NACK on ANOTHER stream for its number finds nothing."""
+    out, extra = [], 0
+    for st in steps:
+        if st["a"] == "jobemit" and rng.random() < 0.25:
+            st = dict(st, fail=True)
+        if st["a"] == "nack" and rng.random() < 0.5:      # numbers packed into (id, bit mask) pairs
+            st = dict(st, fail=True)
+        out.append(st)
+        if st["a"] == "unbind" and rng.random() < 0.5:
+            extra += 1
+            w = 40000 + extra
+            other = 2 if st["s"] == 1 else 1
+            out.append({"a": "wstale", "s": st["s"], "w": w, "id": 900 + extra, "len": 7, "shape": 0})
+            out.append({"a": "bind", "s": other, "nack": True, "rtxssrc": 0, "rtxpt": 0})      # (no effect if it is bound)
+            out.append({"a": "wstale", "s": st["s"], "w": w + 100, "id": 950 + extra, "len": 7, "shape": 0})
+            out.append({"a": "nack", "s": other, "j": 70 + extra, "nums": [w, w + 100]})
+    return out
 
 
 def park_writes(rng, steps):
